@@ -1190,7 +1190,8 @@ impl FatVolume {
         debug!("Next free cluster is {:?}", self.next_free_cluster);
         // Record that we've allocated a cluster
         if let Some(ref mut number_free_cluster) = self.free_clusters_count {
-            *number_free_cluster -= 1;
+            // The count came from the disk and may be stale, so don't underflow
+            *number_free_cluster = number_free_cluster.saturating_sub(1);
         };
         debug!("All done, returning {:?}", new_cluster);
         Ok(new_cluster)
@@ -1234,14 +1235,15 @@ impl FatVolume {
                     self.update_fat(block_cache, next, ClusterId::EMPTY)?;
                     // The last cluster in the chain has been freed too
                     if let Some(ref mut number_free_cluster) = self.free_clusters_count {
-                        *number_free_cluster += 1;
+                        *number_free_cluster = number_free_cluster.saturating_add(1);
                     };
                     break;
                 }
                 Err(e) => return Err(e),
             }
             if let Some(ref mut number_free_cluster) = self.free_clusters_count {
-                *number_free_cluster += 1;
+                // The count came from the disk and may be stale, so don't overflow
+                *number_free_cluster = number_free_cluster.saturating_add(1);
             };
         }
         Ok(())
